@@ -14,6 +14,9 @@ pub mod c12;
 #[cfg(not(feature = "stateless"))]
 pub mod c13;
 pub mod c14;
+#[cfg(all(not(feature = "stateless"), any(feature = "pm", feature = "full")))]
+pub mod c16;
+pub mod c17;
 pub mod c19;
 pub mod c20;
 pub mod ctree;
@@ -38,6 +41,9 @@ pub fn run(prop: &str, rep: &mut Rep, args: &[String]) -> bool {
         "C09" => c09::run(rep),
         "C10" => c10::run(rep),
         "C14" => c14::run(rep),
+        #[cfg(all(not(feature = "stateless"), any(feature = "pm", feature = "full")))]
+        "C16" => c16::run(rep),
+        "C17" => c17::run(rep, args),
         "C19" => c19::run(rep),
         "C20" => c20::run(rep),
         _ => return false,
@@ -49,6 +55,10 @@ pub fn run(prop: &str, rep: &mut Rep, args: &[String]) -> bool {
 pub fn subcommand(name: &str, args: &[String]) -> Option<i32> {
     match name {
         "c14-child" => Some(c14::child(args)),
+        #[cfg(all(not(feature = "stateless"), any(feature = "pm", feature = "full")))]
+        "c16-child" => Some(c16::child(args)),
+        #[cfg(all(not(feature = "stateless"), any(feature = "pm", feature = "full")))]
+        "c16-hold" => Some(c16::holder(args)),
         "selftest-ref" => {
             let bad = crate::refhash::self_test();
             println!("{:?}", bad);
